@@ -65,6 +65,9 @@ def main() -> int:
     if args.cmd == "check":
         return core.run_check(load(args.id), args.tier, args.seed)
     if args.cmd == "worker":
+        from . import REPO_DIR, cov
+
+        cov.start(REPO_DIR, args.id)
         k, n = (int(x) for x in args.shard.split("/"))
         res = core.run_shard(load(args.id), args.tier, args.seed, k, n, args.budget)
         with open(args.out + ".tmp", "w") as f:
